@@ -965,6 +965,53 @@ def c19(v, tier, seed):
 
 LISTENERS = {"can": "can-listener", "cvf": "cvf-listener", "aaf": "aaf-listener", "crf": "crf-listener", "hello": "hello-listener", "vss": "vss-listener"}
 
+def listener_queues(v, wd, pid, seed, q, exes=None):
+    """Growth beyond the listed properties (anchors of C18): the AAF and CVF listeners as queue machines (StreamListener.tla).
+    TLC generates behaviours (datagrams with one deviation each x sequence numbers, interleaved with timer expirations); each is
+    run through the real new_packet()/timeout() (recv, the timerfd read and stdout intercepted); the recorded run - return values,
+    sequence-mismatch diagnostics, bytes presented - must be a behaviour of StreamListener (FIFO, exactly once, counter updates)."""
+    import xprog
+    for kind in ("aaf", "cvf"):
+        exe = (exes or {}).get(kind) or xprog.build_xh(wd, LISTENERS[kind], sanitize=True)
+        scns = []
+        for nm, depth, sim in (("bfs", 2, None), ("simulate", 24 if q else 60, "num=%d" % (4 if q else 60))):
+            cfg = ('SPECIFICATION GSpec\nCONSTANTS\n  Buf = {1}\n  Kind = "%s"\n  Depth = %d\n  Rand = %s\nCONSTRAINT EmitScn\nINVARIANT Fifo\nINVARIANT Ordered\nCHECK_DEADLOCK FALSE\n'
+                   % (kind, depth, "TRUE" if sim else "FALSE"))
+            res = run_tlc("GenListener", cfg, wd, simulate=sim, extra_args=(["-seed", str(seed)] if sim else []), timeout=900)
+            v.add_tlc("GenListener/%s/%s" % (kind, nm), res)
+            if not res.ok: raise Infra("StreamListener violates Fifo/Ordered: " + (res.violation or "")[-800:])
+            em = res.emitted
+            if q and not sim and len(em) > 700: em = random.Random(seed + 5).sample(em, 700)
+            scns += em
+        lines = ["L 0 0 1 " + " ".join(hexs(a["bytes"]) if a["a"] == "packet" else "-" for a in s["hist"]) for s in scns]
+        obs, err = xprog.run_xh(exe, lines)
+        evs = []
+        for s, o in zip(scns, obs):
+            if o["status"] != "ok" or o["done"] != len(s["hist"]):
+                v.violation("listener-queue=%s outcome=%s" % (kind, o["status"].split(":")[0] if o["status"] != "ok" else "stuck"),
+                            "%s listener %s after %d of %d steps of a generated behaviour" % (kind, o["status"], o["done"], len(s["hist"])), {"scenario": s}); continue
+            evs.append({"e": "reset"})
+            for a, ret, seg in zip(s["hist"], o["rets"], o["outs"] + [[]] * len(s["hist"])):
+                if a["a"] == "packet":
+                    e_ = [x for x in seg if x.startswith("E")]
+                    evs.append({"e": "packet", "bytes": a["bytes"], "ret": ret, "seqmsg": int(e_[0][1:]) if e_ else 0})
+                else:
+                    w = [x for x in seg if not x.startswith("E")]
+                    evs.append({"e": "timeout", "out": unhexs("".join(w)), "ret": ret})
+        v.cov["evaluations"] += len(lines)
+        v.cov.setdefault("listener_queue_behaviours", 0); v.cov["listener_queue_behaviours"] += len(scns)
+        cfgt = 'SPECIFICATION TSpec\nCONSTANTS\n  Buf = {1}\n  Kind = "%s"\nINVARIANT Fifo\nINVARIANT Ordered\nPOSTCONDITION TraceAccepted\nCHECK_DEADLOCK FALSE\n' % kind
+        def resume(es, idx):
+            for j in range(idx + 1, len(es)):
+                if es[j]["e"] == "reset": return j
+            return None
+        def keyfn(ev, es=None, i=None):
+            return "listener-queue=%s event=%s" % (kind, ev["e"])
+        pdu.validate_events(v, wd, pdu.shard_by(evs, lambda e: e["e"] == "reset", 4), pid, "listener-queue-" + kind, module="ListenerQueueTrace", cfg=cfgt,
+                            keyfn=keyfn, resume=resume, max_resume=4)
+        if evs: v.sample({"listener_queue_event": {k: (x if not isinstance(x, list) or len(x) < 40 else x[:40]) for k, x in evs[1].items()}})
+
+
 @check("C18", "exploration")
 def c18(v, tier, seed):
     import xprog, concurrent.futures as cf
@@ -1052,6 +1099,7 @@ def c18(v, tier, seed):
                 ev["listener"], ev["classes"][0], ev["mode"], " followed by the well-formed datagram" if ev["lastgood"] else "", ev["status"], ev["done"], ev["n"],
                 ev.get("report", ""), ev["bytes"][:160]), {"event": ev})
     v.sample({"observation": {k: all_events[0][k] for k in ("listener", "classes", "mode", "n", "status", "done")}})
+    listener_queues(v, wd, "C18", seed, q, exes)
     v.cov["distinct_nontrivial"] = ncases
     v.cov["rule"] = ("TLC enumerates the datagram grammar of DatagramGen per listener and mode (length fields 0 / off by one unit / maximum / beyond the datagram, zero-length "
                      "and over-long ACF messages, wrong types, each validity field wrong, truncation at every structural boundary +-1, over-long datagrams, unterminated strings) "
